@@ -175,15 +175,30 @@ func selectAddrFromSubnetOffset(net1 *phantomNet, offset *big.Int) (*PhantomIP, 
 		return nil, errors.New("offset too big for subnet")
 	}
 
-	ipBigInt := &big.Int{}
+	var base net.IP
 	if v4net := net1.IP.To4(); v4net != nil {
-		ipBigInt.SetBytes(net1.IP.To4())
+		base = v4net
 	} else if v6net := net1.IP.To16(); v6net != nil {
-		ipBigInt.SetBytes(net1.IP.To16())
+		base = v6net
 	}
 
+	ipBigInt := &big.Int{}
+	ipBigInt.SetBytes(base)
 	ipBigInt.Add(ipBigInt, offset)
-	ip := net.IP(ipBigInt.Bytes())
+	ip, err := ipFromBigInt(ipBigInt, len(base))
+	if err != nil {
+		return nil, err
+	}
 
 	return &PhantomIP{ip: &ip, supportRandomPort: net1.supportRandomPort}, nil
+}
+
+// ipFromBigInt returns the address number n as a net.IP of exactly length bytes (4 or 16).
+// big.Int.Bytes() drops leading zero bytes, which would yield a malformed net.IP for networks
+// whose address starts with a zero byte (e.g. 0.1.2.0/24 or 64:ff9b::/96).
+func ipFromBigInt(n *big.Int, length int) (net.IP, error) {
+	if n.Sign() < 0 || n.BitLen() > 8*length {
+		return nil, errors.New("address out of range for subnet")
+	}
+	return net.IP(n.FillBytes(make([]byte, length))), nil
 }
